@@ -285,7 +285,10 @@ Definition step (c : cfg) (s : gstate) (e : ev) : gstate :=
       {| g_next := g_next s; g_next_ts := g_next_ts s; g_next_pat := S k;
          g_rtmp_cache := g_rtmp_cache s; g_flv_cache := g_flv_cache s; g_ts_cache := g_ts_cache s;
          g_patpmt := Some (LPat k); g_sdp := g_sdp s; g_next_sdp := g_next_sdp s; g_merge := g_merge s; g_merge_size := g_merge_size s;
-         g_video_known := g_video_known s; g_subs := g_subs s; g_gone := g_gone s;
+         g_video_known := g_video_known s;
+         (* sessions past their prologue get the new tables at once (fix F-08iii) *)
+         g_subs := map (fun c => if ckind_eqb (c_kind c) KTs && negb (c_fresh c) then c_append c [LPat k] else c) (g_subs s);
+         g_gone := g_gone s;
          g_rec_open := g_rec_open s; g_rec := g_rec s; g_in := g_in s |}
   | EvSdp =>
       let k := g_next_sdp s in
